@@ -302,4 +302,30 @@ example : (basicExpand { args := ["a".toList, [], "b c".toList] }
     [.dq [.base (.text "x".toList), .base (.param (.allPos false)), .base (.text "y".toList)]]).fields.map fieldStr
     = ["xa".toList, [], "b cy".toList] := (at_star_field_structure _ _ _).2
 
+/-! ## the execution context does not matter -/
+
+/-- **word_expansion_reads_only_visible_state** (context sweep): brush's expansion of a word with brace
+expressions, and the reference semantics, depend on the environment only through what it shows (`SameView`: visible
+value of every name, positional parameters, IFS, HOME) — not on hidden globals, the caller's parameters, or where
+(function, subshell, `eval`, loop, second time round) the word is expanded. -/
+theorem word_expansion_reads_only_visible_state (e1 e2 : Env) (h : SameView e1 e2) (opts : Opts)
+    (names : List Str) (w : BWord) :
+    fullExpandB e1 opts names w = fullExpandB e2 opts names w ∧
+    specExpandB e1 opts names w = specExpandB e2 opts names w := by
+  constructor
+  · exact fullExpand_sameView e1 e2 h opts names _
+  · have h' : SameView { e1 with bashStarJoin := true } { e2 with bashStarJoin := true } :=
+      ⟨h.1, h.2.1, h.2.2.1, h.2.2.2.1, h.2.2.2.2.1, rfl⟩
+    simp only [specExpandB]
+    congr 1
+    apply List.map_congr_left
+    intro x _
+    exact fullExpand_sameView _ _ h' opts names _
+
+example : fullExpandB { vars := [("s".toList, "a b".toList), ("s".toList, "hidden *".toList)], args := ["p".toList] } {} []
+      [.braces [[.plain (.base (.param (.named "s".toList)))], [.dq [.base (.param (.allPos false))]]]] =
+    fullExpandB { vars := [("s".toList, "a b".toList)], args := ["p".toList] } {} []
+      [.braces [[.plain (.base (.param (.named "s".toList)))], [.dq [.base (.param (.allPos false))]]]] :=
+  (word_expansion_reads_only_visible_state _ _ (sameView_shadow { args := ["p".toList] } _ _ _) _ _ _).1
+
 end BrushVerif.C05
